@@ -32,6 +32,8 @@ def evaluate(case):
         res.label("raised")
         return res
     amb = E.check_c07(res, cits, out)
+    if "seq" in case:
+        E.check_abstract(res, case["seq"], cits, out, safety_only=True)
     if amb:
         res.label("ambiguous-or-id-after-unresolved")
     res.nontrivial = bool(amb)
